@@ -326,11 +326,13 @@ func TestC19Rest(t *testing.T) {
 	checkProp(t, "C19", col, func(c *caseCtx) {
 		rt := c.rt
 		idseed := rapid.Uint64Range(1, 1<<40).Draw(rt, "idseed")
+		dep := drawDeployment(rt)
 		w, err := newL1World(idseed, []sim.Kind{sim.Document})
 		if err != nil {
 			c.failf("HARNESS-ERROR: %v", err)
 		}
 		defer w.close()
+		w.labels[dep] = true
 		patchesHappened = true
 		k := w.keys[0]
 		base := rapid.SampledFrom([]string{"absent", "with-snapshot", "without-snapshot"}).Draw(rt, "base")
@@ -469,7 +471,7 @@ func TestC19Rest(t *testing.T) {
 				}
 			}
 		}
-		col.Case(base == "without-snapshot" || pushedBetween, canon.String(), []string{"base=" + base, fmt.Sprintf("clients=%d", nclients)}, func() interface{} {
+		col.Case(base == "without-snapshot" || pushedBetween, canon.String(), []string{"base=" + base, fmt.Sprintf("clients=%d", nclients), dep}, func() interface{} {
 			return map[string]interface{}{"scenario": canon.String()}
 		})
 	})
